@@ -695,6 +695,9 @@ def work_copy(item):
                 viol("shared-node", "meta-dict", "copy shares a meta dict with the original")
             if a._type is not None and a._type is b._type:
                 viol("shared-node", "type", "copy shares a type object with the original")
+            for ak, av in a.args.items():
+                if type(av) is list and av is b.args.get(ak):
+                    viol("shared-node", "arg-list", f"copy shares the list object of arg {ak!r} of a {type(a).__name__} with the original")
         for clause, what, site in wf(c, root_detached=True):
             viol("parent", f"wf-{clause}", what)
         for clause, what, site in hash_ok(c):
@@ -742,6 +745,8 @@ def work(item):
     return WORK[item[0]](item)
 
 
+EMPTY_LIST_ARG_STATEMENTS = ["SELECT f(a, b), g() FROM t", "SELECT FOO(), COUNT(), ARRAY() FROM t", "SELECT STRUCT() AS s FROM t WHERE h()"]
+
 PAIR_FNS = ["optimize", "qualify-copy", "annotate-copy", "transform-id", "diff", "diff-self", "expand", "replace_tables", "lineage-all", "rules-on-copy"]
 
 
@@ -756,6 +761,11 @@ def _plan(tier):
             items.append(("copy", sql, "", annotate))
     for read, sql in DIALECT_SPECIFIC:
         items.append(("copy", sql, read, False))
+    # nodes whose list-valued args are EMPTY (zero-argument calls, empty constructors): a shared empty list is invisible
+    # until someone appends to it
+    for sql in EMPTY_LIST_ARG_STATEMENTS:
+        if sql not in copy_stm:
+            items.append(("copy", sql, "", False))
     # (1) sql
     if tier == "quick":
         reads = [""]
